@@ -128,8 +128,37 @@ def run_case(case):
             kw["output_aggregation"] = str(rng.choice(["sum", "average"]))
         if rng.random() < 0.3:
             kw["pop_aggregation"] = str(rng.choice(["sum", "average", "weighted"]))
+        # ... and of the time treatment: aggregation onto bins (default or explicit method) in the constructor or
+        # afterwards, interpolation afterwards
+        post = None
+        u_t = rng.random()
+        if view.T >= 4 and u_t < 0.45:
+            t0_, t1_ = float(view.t[0]), float(view.t[-1])
+            nb_ = int(rng.integers(1, 4))
+            edges_ = [t0_] + sorted(float(x) for x in rng.uniform(t0_, t1_, size=nb_ - 1)) + [t1_]
+            edges_ = sorted(set(edges_))
+            method_ = [None, None, "integrate", "average"][int(rng.integers(0, 4))]
+            if len(edges_) >= 2:
+                if u_t < 0.25:
+                    kw["t_bins"] = edges_
+                    kw["time_aggregation"] = method_
+                    R.count("time_treatment[t_bins in constructor,%s]" % method_)
+                else:
+                    post = ("time_aggregate", edges_, method_)
+                    R.count("time_treatment[time_aggregate afterwards,%s]" % method_)
+        elif view.T >= 3 and u_t < 0.6:
+            post = ("interpolate", np.sort(rng.uniform(float(view.t[0]), float(view.t[-1]), size=5)))
+            R.count("time_treatment[interpolate afterwards]")
+
+        def treat(pd_):
+            if post is None:
+                return pd_
+            if post[0] == "interpolate":
+                return pd_.interpolate(post[1])
+            return pd_.time_aggregate(post[1], time_aggregation=post[2])
+
         try:
-            ref_pd = call([target], [tpop], **kw)
+            ref_pd = treat(call([target], [tpop], **kw))
         except Exception as e:
             R.count("plotdata_reference_call_failed[%s]" % type(e).__name__)
             continue
@@ -145,7 +174,7 @@ def run_case(case):
             psel = [popsel[int(i)] for i in rng.choice(len(popsel), size=pk, replace=False) if key_of(popsel[int(i)]) != key_of(tpop)] + [tpop]
             psel = [psel[int(i)] for i in rng.permutation(len(psel))]
             try:
-                pd2 = call(outs, psel, **kw)
+                pd2 = treat(call(outs, psel, **kw))
             except Exception as e:
                 R.count("plotdata_variant_call_failed[%s]" % type(e).__name__)
                 continue
@@ -162,7 +191,8 @@ def run_case(case):
                 first = key_of(outs[0])
                 tk = "aggregated-output" if isinstance(target, dict) and not isinstance(list(target.values())[0], str) else ("formula" if isinstance(target, dict) else "plain")
                 pkind = "aggregated-pop" if isinstance(tpop, dict) else "single-pop"
-                R.bad("value-independent-of-other-requests", "C20:value-depends-on-other-requests[%s,%s,%s]" % (tk, pkind, "explicit" if kw else "default"), {"target": target, "pop": tpop, "alone": None if refv is None else refv[:4].tolist(), "in_call": None if v2 is None else v2[:4].tolist(), "outputs": outs, "pops": psel, "kwargs": kw})
+                tt = "t_bins" if "t_bins" in kw else (post[0] if post is not None else "no-time-treatment")
+                R.bad("value-independent-of-other-requests", "C20:value-depends-on-other-requests[%s,%s,%s,%s]" % (tk, pkind, "explicit" if (set(kw) - {"t_bins", "time_aggregation"}) else "default", tt), {"time_treatment": None if post is None else [post[0], [float(x) for x in post[1]]] + list(post[2:]), "target": target, "pop": tpop, "alone": None if refv is None else refv[:4].tolist(), "in_call": None if v2 is None else v2[:4].tolist(), "outputs": outs, "pops": psel, "kwargs": kw})
             else:
                 R.ok("value-independent-of-other-requests")
 
